@@ -100,8 +100,16 @@ def run(prog, rep):
         env9 = local_env(f9)
         IDENT = {'GRAPH_ID', 'NODE_ID', 'PROP_CLASS', 'GraphID', 'NodeID', 'Class'}
 
-        def ident_keys(e):
-            return {x.attr for x in ast.walk(e) if isinstance(x, ast.Attribute) and x.attr in IDENT} | \
+        def ident_keys(e, _depth=0):
+            extra = set()
+            if _depth < 2:
+                # class-level tables the expression refers to (self._IDENTITY_PROPERTIES)
+                for x in ast.walk(e):
+                    if isinstance(x, ast.Attribute) and isinstance(x.value, ast.Name) and x.attr not in IDENT:
+                        _, tbl = c9.find_assign(x.attr)
+                        if isinstance(tbl, (ast.Tuple, ast.List, ast.Set)):
+                            extra |= ident_keys(tbl, _depth + 1)
+            return extra | {x.attr for x in ast.walk(e) if isinstance(x, ast.Attribute) and x.attr in IDENT} | \
                    {x.value for x in ast.walk(e) if isinstance(x, ast.Constant) and isinstance(x.value, str) and x.value in IDENT} | \
                    {k.arg for x in ast.walk(e) if isinstance(x, ast.Call) for k in x.keywords if k.arg in IDENT}
         # statements through which the caller's properties enter what is stored (tests on `props` excluded)
@@ -314,6 +322,7 @@ def run(prog, rep):
     mn = nxpg.methods.get('merge_nodes')
     if mn is None:
         raise AnalysisError('merge_nodes vanished')
+    mn = inline(prog, nxpg, mn, exclude=('_find_node', '_find_all_nodes'))      # the policy may be applied by a private helper
     fq = 'NetworkXPropertyGraph.merge_nodes'
     # locals holding the saved properties
     saved = {}
